@@ -32,6 +32,10 @@ type c13Node struct {
 	I  interface{}         `valid:"required"`
 	E1 string              `valid:"either=1"`
 	E2 string              `valid:"either=1"`
+	// unexported fields (non-zero in some inputs) that rule maps name all the same
+	hidden int
+	secret []string
+	inner  *c13Node
 }
 
 type c13Odd struct {
@@ -191,6 +195,20 @@ func c13Catalogue() []c13Call {
 		add("StructForFns-slice", d, func() error {
 			return valid.StructForFns([]*c13Node{{A: "x"}, {A: "y"}}, valid.RM{"A": "w_fn,to=5~6"}, valid.Name2FnMap{"w_fn": fn})
 		})
+	}
+	// rule maps that name unexported fields (with every rule that looks at the value through Interface())
+	hid := &c13Node{A: "x", hidden: 7, secret: []string{"a", "a"}, inner: one, R: one, I: 1}
+	hidVal := c13Node{A: "x", hidden: 7, secret: []string{"a", "a"}, R: one, I: 1}
+	for _, r := range []string{"in=(1/2)", "eq=3", "noeq=7", "int", "float", "unique", "ints", "botheq=1", "either=1", "required", "exist", "to=1~2", "json", "re='^a$'", "nosuch"} {
+		r := r
+		rmHid := valid.RM{"hidden": r, "secret": r, "inner": r, "A": "botheq=1"}
+		add("Struct+RM-unexported", r, func() error { return valid.Struct(hid, rmHid) })
+		add("Struct+RM-unexported-byvalue", r, func() error { return valid.Struct(hidVal, rmHid) })
+		add("StructForFns-unexported", r, func() error { return valid.StructForFns(hid, rmHid, valid.Name2FnMap{"nosuch": noop}) })
+		add("NestedStructForRule-unexported", r, func() error {
+			return valid.NestedStructForRule(&c13Node{A: "x", R: hid, I: 1}, map[interface{}]valid.RM{&c13Node{}: rmHid})
+		})
+		add("SetRule-unexported-slice", r, func() error { return valid.NewVStruct().SetRule(rmHid, c13Node{}).Valid([]*c13Node{hid, nil}) })
 	}
 	// map / url specific shapes
 	maps := []vals{
